@@ -16,10 +16,68 @@
    exact wrong state); C19_restores_partial says what does hold; C19_restores_if_fixed
    says that the four small repairs make the full statement true.
 
-   WHEN /repo IS REPAIRED: flip the corresponding booleans of [current]; the *_refuted
-   theorems of the repaired clauses then stop compiling - delete them and enable the
-   theorem in the comment at the end of this file. *)
+   WHEN /repo IS REPAIRED: flip the corresponding booleans of [current] in
+   Cli/MainEffects.v (one line); the *_refuted lemmas of the repaired clauses (PART B below,
+   Cli/MainEffectsRefuted.v) then stop compiling - delete them; when all four are repaired
+   delete PART B and the import of Cli.MainEffectsRefuted altogether and enable the theorem
+   in the comment at the end of this file.  harness/props/c19.py reads the list of
+   obligations from this file, nothing else has to change. *)
 From LP Require Import Prelude.Py Explicit.Base Gen.GlobalProfiler Cli.MainEffects Cli.MainEffectsProofs.
+From LP Require Import Cli.MainEffectsRefuted.
+
+(* ======================= PART A: holds whatever [current] is ============================= *)
+
+
+(* What does hold of the tree as it is, for all states and all sequences of runs:
+   - no profiler is left enabled;
+   - sys.path has its previous contents provided sys.path is still the list object kernprof
+     saw when it was imported and no run ended with main raising ([no_exception]: along the
+     execution, because a stale builtins.profile left by an earlier run can make a later
+     plain-cProfile run raise although its program would not);
+   - no timer thread is left provided no run used -i N with N > 0.
+   (Nothing holds for sys.argv or for the global decorator: see above.) *)
+Theorem C19_restores_partial :
+  forall s rs,
+    tracing_ok s (exec_runs current s rs) = true
+    /\ (ref (path s) = cap (path s) -> no_exception current s rs = true -> path_ok s (exec_runs current s rs) = true)
+    /\ (no_interval rs = true -> timers_ok s (exec_runs current s rs) = true).
+Proof. exact (restores_partial current). Qed.
+
+(* The four repairs (decorators that look the list up at call time, put the name back and
+   write back in a finally; main restoring the decorator's state; one timer) make the full
+   statement true - for all states, option sets, outcomes and sequences of runs. *)
+Theorem C19_restores_if_fixed :
+  forall cfg, fx_at_call cfg = true -> fx_finally cfg = true -> fx_profile cfg = true -> fx_timer cfg = true ->
+              C19_statement cfg.
+Proof. exact restores_if_fixed. Qed.
+
+(* the smaller repair of sys.argv (`sys.argv[:] = ...`) suffices when nobody rebound
+   sys.argv / sys.path between kernprof's import and the call *)
+Theorem C19_restores_if_fixed_inplace :
+  forall cfg s rs,
+    fx_argv_inplace cfg = true -> fx_finally cfg = true -> fx_profile cfg = true -> fx_timer cfg = true ->
+    ref (argv s) = cap (argv s) -> ref (path s) = cap (path s) -> usable (gp s) = true ->
+    restored s (exec_runs cfg s rs) = true.
+Proof. exact restores_if_fixed_inplace. Qed.
+
+(* profile(f) raises iff the object is "enabled" without a profiler, in every world *)
+Theorem C19_usable_meaning :
+  forall g environ av f, (exists e, decorate g environ av f = Err e) <-> usable g = false.
+Proof. exact decorate_raises_iff. Qed.
+
+Theorem C19_nonvacuous :
+  usable (gp st0) = true /\ ref (path st0) = cap (path st0)
+  /\ no_exception current st0 [(opts0, returns); (opts_module, mkProg SysExit true true true)] = true
+  /\ path_ok st0 (exec_runs current st0 [(opts0, returns); (opts_module, mkProg SysExit true true true)]) = true
+  /\ no_interval [(opts0, raises)] = true
+  /\ restored st0 (exec_runs all_fixed st0 [(opts0, returns); (opts0, raises); (opts_timed, returns);
+                                            (opts_module, mkProg Exc true true true)]) = true
+  /\ cur (path (snd (main_body current opts_module (mkProg Return true false true) st0)))
+     = ["/T/setupd"; "/T"; "/lib"; "/prog-added"]
+  /\ cur (argv (snd (main_body current opts_module (mkProg Return false true true) st0))) = ["mod"; "x"; "prog-added"].
+Proof. exact nonvacuous. Qed.
+
+(* ======================= PART B: the tree as it is violates C19 ========================== *)
 
 (* sys.argv is rebound by main; the decorator restores the list object it captured at
    import, not the name: after a run that RETURNS, sys.argv is [script] + args. *)
@@ -68,54 +126,6 @@ Theorem C19_every_timed_run_leaks :
   forall s o p, fx_timer current = false -> 0 < o_interval o ->
                 timers (snd (main current o p s)) = timers s + 1.
 Proof. exact every_timed_run_leaks. Qed.
-
-(* What does hold of the tree as it is, for all states and all sequences of runs:
-   - no profiler is left enabled;
-   - sys.path has its previous contents provided sys.path is still the list object kernprof
-     saw when it was imported and no run ended with main raising;
-   - no timer thread is left provided no run used -i N with N > 0.
-   (Nothing holds for sys.argv or for the global decorator: see above.) *)
-Theorem C19_restores_partial :
-  forall s rs,
-    tracing_ok s (exec_runs current s rs) = true
-    /\ (ref (path s) = cap (path s) -> no_exception rs = true -> path_ok s (exec_runs current s rs) = true)
-    /\ (no_interval rs = true -> timers_ok s (exec_runs current s rs) = true).
-Proof. exact (restores_partial current). Qed.
-
-(* The four repairs (decorators that look the list up at call time, put the name back and
-   write back in a finally; main restoring the decorator's state; one timer) make the full
-   statement true - for all states, option sets, outcomes and sequences of runs. *)
-Theorem C19_restores_if_fixed :
-  forall cfg, fx_at_call cfg = true -> fx_finally cfg = true -> fx_profile cfg = true -> fx_timer cfg = true ->
-              C19_statement cfg.
-Proof. exact restores_if_fixed. Qed.
-
-(* the smaller repair of sys.argv (`sys.argv[:] = ...`) suffices when nobody rebound
-   sys.argv / sys.path between kernprof's import and the call *)
-Theorem C19_restores_if_fixed_inplace :
-  forall cfg s rs,
-    fx_argv_inplace cfg = true -> fx_finally cfg = true -> fx_profile cfg = true -> fx_timer cfg = true ->
-    ref (argv s) = cap (argv s) -> ref (path s) = cap (path s) -> usable (gp s) = true ->
-    restored s (exec_runs cfg s rs) = true.
-Proof. exact restores_if_fixed_inplace. Qed.
-
-(* profile(f) raises iff the object is "enabled" without a profiler, in every world *)
-Theorem C19_usable_meaning :
-  forall g environ av f, (exists e, decorate g environ av f = Err e) <-> usable g = false.
-Proof. exact decorate_raises_iff. Qed.
-
-Theorem C19_nonvacuous :
-  usable (gp st0) = true /\ ref (path st0) = cap (path st0)
-  /\ no_exception [(opts0, returns); (opts_module, mkProg SysExit true true)] = true
-  /\ path_ok st0 (exec_runs current st0 [(opts0, returns); (opts_module, mkProg SysExit true true)]) = true
-  /\ no_interval [(opts0, raises)] = true
-  /\ restored st0 (exec_runs all_fixed st0 [(opts0, returns); (opts0, raises); (opts_timed, returns);
-                                            (opts_module, mkProg Exc true true)]) = true
-  /\ restored st0 (exec_runs current st0 [(opts0, returns)]) = false
-  /\ cur (path (snd (main_body current opts_module (mkProg Return true false) st0)))
-     = ["/T/setupd"; "/T"; "/lib"; "/prog-added"]
-  /\ cur (argv (snd (main_body current opts_module (mkProg Return false true) st0))) = ["mod"; "x"; "prog-added"].
-Proof. exact nonvacuous. Qed.
 
 (* AFTER THE REPAIR (all four flags of [current] true), replace the *_refuted,
    C19_every_* theorems by:
